@@ -136,8 +136,9 @@ class Spec(unit.UnitSpec):
     modules = ["MmtkModel.Props.C39"]
     theorems = ["Mmtk.Opts.set_iff_parse_and_valid", "Mmtk.Opts.set_false_unchanged", "Mmtk.Opts.set_true_effect",
                 "Mmtk.Opts.bulk_eq_fold", "Mmtk.Opts.parseDigits_spec", "Mmtk.Opts.parseUnsigned_spec",
-                "Mmtk.Opts.parseSize_spec", "Mmtk.Opts.trigger_spec", "Mmtk.Opts.trigger_delegated_prefix",
-                "Mmtk.Opts.nursery_spec", "Mmtk.Opts.cpulist_item_spec", "Mmtk.Opts.insertCore_spec"]
+                "Mmtk.Opts.parseSize_spec", "Mmtk.Opts.trigger_spec", "Mmtk.Opts.trigger_fixed_accepts", "Mmtk.Opts.trigger_delegated_prefix",
+                "Mmtk.Opts.nursery_spec", "Mmtk.Opts.cpulist_item_spec", "Mmtk.Opts.insertCore_spec",
+                "Mmtk.Opts.insertRange_spec"]
     component = "opts"
     relation = ("Mmtk.Opts.{setFromString, setBulkFromString, triggerFromStr, nurseryFromStr, parseCpulist, …} ≙ "
                 "util::options::{Options::set_from_string, set_bulk_from_string, GCTriggerSelector/NurserySize/AffinityKind "
@@ -270,7 +271,7 @@ class Spec(unit.UnitSpec):
             kind = k
         cores = set()
         for it in s.split(","):
-            m = re.fullmatch(r"([0-9]+)(?:-([0-9]+))?", it, re.A)
+            m = re.fullmatch(r"\+?([0-9]+)(?:-\+?([0-9]+))?", it, re.A)   # "numbers" = Rust u16 syntax (optional '+')
             if not m:
                 return None
             a = int(m.group(1))
@@ -328,9 +329,7 @@ class Spec(unit.UnitSpec):
                 ref = self.ref_cpulist(s)
                 got = None if out == "err" else out
                 if got != ref:
-                    if "+" in s and got is not None and ref is None:
-                        bad.append(("opts:leading-plus", f"AffinityKind::from_str({s!r}) = {got}: a leading '+' on a core id is accepted"))
-                    else:
+                    if True:
                         bad.append(("opts:cpulist-grammar", f"AffinityKind::from_str({s!r}) = {got}, documented grammar gives {ref}"))
         seen, uniq = set(), []
         for k, w in bad:
